@@ -24,7 +24,7 @@ ASSUMPTIONS = ["the scanner's notion of measure/row (split on '&', ',', lines) i
 MONITORS = ["readback", "structure", "fixed_point"]
 REQUIRED = ["mixed_denominators", "skipped_measure", "player0_absent", "two_players_absent", "empty_stream",
             "off_grid_beat", "from_text", "corpus_chart", "denominators_share_factor", "stream_given_as_notedata",
-            "beats_alike_to_three_decimals"]
+            "beats_alike_to_three_decimals", "denominator_above_a_million"]
 
 
 def anchors():
@@ -42,6 +42,8 @@ def cases(ctx):
         yield {"kind": "stream", "columns": 4, "notes": []}
         yield {"kind": "stream", "columns": 1, "notes": []}
         yield {"kind": "stream", "columns": 16, "notes": []}
+        # beats whose denominators are far beyond anything a chart editor writes (measures of millions of rows)
+        yield {"kind": "stream", "columns": 1, "notes": [[0, 4500012, 1000003, 0, "1", None], [0, 6, 1, 0, "M", None]]}
         for name, ch in c07.corpus_charts():
             yield {"kind": "text", "name": name, "text": ch.notes}
     n = ctx.split(2500 if ctx.tier == "quick" else 16 * 25000)
@@ -66,7 +68,7 @@ def scan_structure(text):
         ms = []
         for measure in section.split(","):
             rows = [l.strip() for l in measure.strip().splitlines()]
-            for row in rows:
+            for row in set(rows):
                 w, i = 0, 0
                 while i < len(row):
                     i += 1
@@ -102,6 +104,8 @@ def check(ctx, case):
                       "notes": case.get("notes", [])[:8], "text": case.get("text", "")[:200]})
     if not stream:
         ctx.feat("empty_stream")
+    if any(Fraction(n.beat).denominator > 10**6 for n in stream):
+        ctx.feat("denominator_above_a_million")
 
     if case["kind"] == "text" and ctx.evaluations % 2:
         # the decoded chart object itself as the stream (an Iterable[Note] like any other)
